@@ -362,6 +362,9 @@ func c18Body(r *Run) {
 				limit := 5 * time.Second
 				if c.impatient {
 					limit = 5 * time.Millisecond
+					if c.delay > 0 && c.id%2 == 0 {
+						limit = c.delay // the caller's patience ends at the very instant the handler answers
+					}
 					r.Fault("caller-context-ends-before-reply")
 				}
 				tctx, tcancel := context.WithTimeout(ctx, limit)
